@@ -727,8 +727,13 @@ func (a *Analysis) condLits(t *Term, pol bool, depth int) []int32 {
 	case "call":
 		switch t.Name {
 		case "runtime.CheckWitness":
+			g := a.generalize(t.Args[0])
 			if pol {
-				out = append(out, a.lt.id(Lit{Kind: KW, A: a.generalize(t.Args[0])}))
+				out = append(out, a.lt.id(Lit{Kind: KW, A: g}))
+			} else if g == t.Args[0] {
+				// no loop element inside: the same term is checked with the same outcome
+				// anywhere in this invocation, so the negative outcome may be recorded too
+				out = append(out, -a.lt.id(Lit{Kind: KW, A: g}))
 			}
 			return out
 		case "interop.Hash160.Equals", "interop.Hash256.Equals", "interop.PublicKey.Equals", "util.Equals":
@@ -1012,8 +1017,13 @@ func (a *Analysis) Canon(st *CNF, t *Term) *Term {
 			from, to := l.A, l.B
 			if to.Op == "phi" || to.Op == "ret" {
 				if from.Op == "phi" || from.Op == "ret" {
-					// between two instances prefer the lower id
-					if from.Inst < to.Inst {
+					// between two instances: a merged variable (phi) is rewritten to the call
+					// result (ret) it holds; otherwise prefer the lower id
+					switch {
+					case from.Op == "ret" && to.Op == "phi":
+						from, to = to, from
+					case from.Op == "phi" && to.Op == "ret":
+					case from.Inst < to.Inst:
 						from, to = to, from
 					}
 				} else {
